@@ -191,7 +191,53 @@ class _Due(Flow):
         self.f = f
         self.events = []  # (kind, node, state)
 
+    KEEP = ('paused', 'unpaused', 'armed')
+
+    @staticmethod
+    def _flag(st, name):
+        for x in st:
+            if isinstance(x, tuple) and x[0] == 'f' and x[1] == name:
+                return x[2]
+        return None
+
+    @staticmethod
+    def _setflag(st, name, val):
+        return frozenset(x for x in st if not (isinstance(x, tuple) and x[0] == 'f' and x[1] == name)) | {('f', name, val)}
+
+    def on_stmt(self, s, st):
+        # boolean locals that remember whether an event of this node was due (`due = ts <= 300.0`, `due = True` in the
+        # due branch, `due = due or ...`): value False / 'due' (set where the due fact held) / True (set elsewhere)
+        if isinstance(s, ast.Assign) and len(s.targets) == 1 and isinstance(s.targets[0], ast.Name):
+            name, v = s.targets[0].id, s.value
+            if isinstance(v, ast.Constant) and isinstance(v.value, bool):
+                val = False if not v.value else ('due' if 'due' in st and 'notdue' not in st else True)
+                return (self._setflag(st, name, val),)
+            if isinstance(v, (ast.Compare, ast.BoolOp, ast.UnaryOp)):
+                base = frozenset(x for x in st if x not in ('due', 'notdue'))
+                tr, fa = self.cond(v, {base})
+                out = set()
+                for x in tr:
+                    carried = any(isinstance(n, ast.Name) and self._flag(st, n.id) == 'due' for n in ast.walk(v))
+                    val = 'due' if ('due' in x and 'notdue' not in x) or carried else True
+                    y = frozenset(z for z in x if z not in ('due', 'notdue')) | (st & {'due', 'notdue'})
+                    out.add(self._setflag(y, name, val))
+                for x in fa:
+                    y = frozenset(z for z in x if z not in ('due', 'notdue')) | (st & {'due', 'notdue'})
+                    out.add(self._setflag(y, name, False))
+                return tuple(out)
+            if self._flag(st, name) is not None:
+                return (frozenset(x for x in st if not (isinstance(x, tuple) and x[0] == 'f' and x[1] == name)),)
+        return (st,)
+
     def on_test(self, e, st):
+        if isinstance(e, ast.Name):
+            fv = self._flag(st, e.id)
+            if fv is False:
+                return (), (st,)
+            if fv == 'due':
+                return (frozenset(x for x in st if x != 'notdue') | {'due'},), ()
+            if fv is True:
+                return (st,), ()
         if isinstance(e, ast.Compare) and len(e.ops) == 1 and isinstance(e.comparators[0], ast.Constant) and isinstance(e.comparators[0].value, (int, float)):
             left = e.left
             src = set(names_in(left))
@@ -229,10 +275,10 @@ class _Due(Flow):
 
     def on_for(self, node, st):
         # facts about one period / node do not carry over to the next iteration
-        return (frozenset(x for x in st if x in ('paused', 'unpaused', 'armed')),)
+        return (frozenset(x for x in st if x in self.KEEP or isinstance(x, tuple)),)
 
     def on_for_done(self, node, st):
-        return (frozenset(x for x in st if x in ('paused', 'unpaused', 'armed')) | {'looped'},)
+        return (frozenset(x for x in st if x in self.KEEP or isinstance(x, tuple)) | {'looped'},)
 
 
 def rule3(ctx, rep):
@@ -253,7 +299,7 @@ def rule3(ctx, rep):
             raise AnalysisError('schedule.defer: no todo growth / queue insertion found')
         for c, st in que:
             r.instance()
-            r.check('due' in st and 'notdue' not in st, f'{f.qname}:{norm(c)}', where(f, c), 'queued only in the due branch (delay <= window)', f'{norm(c)} is reachable when the event is not due (state {sorted(st)})')
+            r.check('due' in st and 'notdue' not in st, f'{f.qname}:{norm(c)}', where(f, c), 'queued only in the due branch (delay <= window)', f'{norm(c)} is reachable when the event is not due (state {sorted(map(str, st))})')
         seen = set()
         for c, st in todo:
             k = (c.lineno, c.col_offset)
@@ -270,6 +316,20 @@ def rule3(ctx, rep):
                 r.check(ok, f'{f.qname}:{norm(c)}', where(f, c), 'all known targets only for non-analysis nodes of a due event', f'{norm(c)} is reachable for an analysis node or a not-due event')
             else:
                 r.fail(f'{f.qname}:{norm(c)}', where(f, c), f'a due event queues {norm(a0) if a0 is not None else "nothing"}: neither the all-targets marker nor all known targets')
+        # a due event's node does get queued: the growth of todo in defer is followed by a queue insertion on every path
+        # (same analysis as R-C01-6; added after seeded change C01-5 where a later, not-due event of the same node
+        # decided whether the node was queued)
+        from . import c01 as _c01
+
+        ops = [o for o in wsa.all_ops(prog) if o.func.qname == f.qname]
+        if ops:
+            pf = _c01._Pending(prog, ops[0].func, ops)
+            out = pf.run(ops[0].func.node, frozenset())
+            for st in out.normal | out.ret:
+                pf.finish(st, ops[0].func.node)
+            r.instance()
+            msgs = sorted({m for _n, m in pf.bad})
+            r.check(not pf.bad, f'{f.qname}:due-event-queued', where(f, pf.bad[0][0] if pf.bad else None), 'the node of a due event is on the queue when defer returns', f'{f.qname}: a due event fills todo but: ' + '; '.join(msgs))
         # the due window constant
         r.instance()
         consts = [n.comparators[0].value for n in f.own_nodes() if isinstance(n, ast.Compare) and len(n.ops) == 1 and isinstance(n.comparators[0], ast.Constant) and isinstance(n.comparators[0].value, (int, float)) and any(_local_def(f, x) for x in names_in(n.left))]
